@@ -16,7 +16,8 @@ OPAQUE = list(common.OPAQUE) + [r'basic_string|^(nano::)?string_t$', r'proximity
 MEMBERS = [(r'^solve\|nano::bundle_t', 'nv_pb_solve({self})'), (r'^econverged\|nano::bundle_t', 'nv_pb_econverged({self}, {0})'),
            (r'^sconverged\|nano::bundle_t', 'nv_pb_sconverged({self}, {0})'),
            (r'^x\|nano::bundle_t', 'nv_pb_x'), (r'^gx\|nano::bundle_t', 'nv_pb_gx'), (r'^fx\|nano::bundle_t', 'nv_pb_fx'),
-           (r'^(smeared_e|delta)\|nano::bundle_t', '@nondet'),
+           (r'^delta\|nano::bundle_t', 'nv_pb_delta({self})'), (r'^smeared_e\|nano::bundle_t', 'nv_pb_smeared_e({self})'),
+           (r'^dot\|.*tensor', 'nv_gy_dot()'), (r'^dot\|Eigen::', 'nv_s_dot()'),
            (r'^search\|nano::csearch_t', '(*csearch_search({self}, {&0}, {1}, {2}, {3}, {&4}))'), (r'^(miu|reset)\|.*(proximity_t|nesterov_sequence)', '@nondet')] + nonls.MEMBERS
 CALLS = [(r'^operator\(\)\|[^|]*\|[^|]*\(lambda at', '@nondet'), (r'^infinity\|double \(\)', 'nv_dbl_inf()'),
          (r'^make\|nano::bundle_t \(', 'nv_pb_make({&0})'), (r'^make\|nano::csearch_t \(', 'nv_cs_make({&0})')] + nonls.CALLS
@@ -94,10 +95,10 @@ def point_binding_hook(P, n, ind):
     return out
 
 
-def fn(cname, tu, name, flt, self_struct, select=None, lambda_index=None, captures=False, extra_hooks=()):
+def fn(cname, tu, name, flt, self_struct, select=None, lambda_index=None, captures=False, extra_hooks=(), pre_hooks=()):
     vt = vectrack.VecTrack(extracted_lambdas=['apply_nesterov_sequence'])
     return Fn(cname, tu, name, flt=flt, select=select, self_struct=self_struct, types=TYPES, calls=CALLS, members=MEMBERS,
-              hooks=[nonls.vgrad_hook, triple_hook, status_write_hook, vt.expr_hook] + list(common.HOOKS) + list(extra_hooks),
+              hooks=list(pre_hooks) + [nonls.vgrad_hook, triple_hook, status_write_hook, vt.expr_hook] + list(common.HOOKS) + list(extra_hooks),
               stmt_hooks=[point_binding_hook, vt.stmt_hook], opaque=OPAQUE, aggregates=['struct nv_tuple_b_f64'],
               lambda_index=lambda_index, captures=captures)
 
@@ -106,8 +107,23 @@ def search():
     return fn('csearch_search', 'src/solver/csearch.cpp', 'search', 'csearch_t::search', 'struct nv_csearch')
 
 
+def rqb_move_hook(P, n):
+    """rqb: state.update(y, gy, fy) -> nv_rqb_move(&state, &bundle, &csearch, ..): the stub names the solver's bundle and curve search
+    (locals of solver_rqb_t::do_minimize) to state the obligation that the move is a descent-tested trial of the last search"""
+    if n.get('kind') != 'CXXMemberCallExpr':
+        return None
+    me = n['inner'][0]
+    args = n['inner'][1:]
+    if me.get('name') != 'update' or strip_cv(qual(me['inner'][0]['type'])) != 'nano::solver_state_t' or len(args) != 5:
+        return None
+    if not all(unwrap(a).get('kind') == 'CXXDefaultArgExpr' for a in args[3:]):
+        return None
+    P.note('rqb: state.update(y, gy, fy) -> nv_rqb_move')
+    return f'nv_rqb_move({P.addr(me["inner"][0])}, &bundle, &csearch, {vec_of(P, args[0])}, {vec_of(P, args[1])}, {P.expr(args[2])})'
+
+
 def rqb():
-    return fn('rqb_do_minimize', 'src/solver/rqb.cpp', 'do_minimize', 'solver_rqb_t::do_minimize', 'struct nv_solver')
+    return fn('rqb_do_minimize', 'src/solver/rqb.cpp', 'do_minimize', 'solver_rqb_t::do_minimize', 'struct nv_solver', pre_hooks=[rqb_move_hook])
 
 
 FPBA_SEL = lambda d: True
@@ -144,6 +160,13 @@ def ellipsoid():
     cname, tu, flt, kw = [b for b in nonls.BODIES if b[0] == 'ellipsoid_do_minimize'][0]
     return Target('ellipsoid_stop_test', [nonls.body(cname, tu, flt, **kw), common.fn_done()], nonls.H, replace=['solver_done'], defines=['NV_C03'],
                   note='ellipsoid: converged => the stopping test was evaluated in the returning iteration')
+
+
+def state_ctor():
+    """solver_state_t{function, x0}: the initial status is max_iters (the value-initialised member `m_status{}` is the FIRST enumerator,
+    read from /repo's AST): rqb / fpba / ellipsoid set a status only through solver_t::done, so an exhausted budget is reported as
+    max_iters and `converged` only when done() decided it (shared target of specs/solver, also run by C01 / C02)"""
+    return [t for t in common.targets(['NV_C03']) if t.name == 'state_ctor'][0]
 
 
 def targets(defines=()):
